@@ -1545,6 +1545,8 @@ def _restore_in_scheduler(sched, info, p=None, seed=None):
     state = searcher.get_state()
     info["stage"] = "pickle"
     state = pickle.loads(pickle.dumps(state))
+    if isinstance(state.get("restrict_configurations"), list):
+        info["rc_left"] = len(state["restrict_configurations"])
     template = searcher
     if p is not None and p.get("template") == "fresh":
         info["stage"] = "build_template"
@@ -1870,7 +1872,11 @@ def run_gpclone(spec, o):
             o.count(f"rp_clone_failed:{fac}")
             stage = pt.get("stage")
             where = ("before_first_suggest" if k == 0 else "after_first_suggest") if stage == "get_state" else f"template={p['template']}"
-            o.violate("restore", f"gpclone:{kind}:{stage}_raised:{pt['restore_error'][0]}:model={model}:{where}",
+            m_ = model
+            if stage == "clone_from_state" and pt.get("rc_left") == 0:
+                m_ = "any"
+                where = "restrict_configurations_used_up:" + where
+            o.violate("restore", f"gpclone:{kind}:{stage}_raised:{pt['restore_error'][0]}:model={m_}:{where}",
                       {"k": k, "error": pt["restore_error"], "gp_options": p.get("gp"), "template": p["template"]})
             continue
         d = pt["d"]
